@@ -112,6 +112,7 @@ type Stats struct {
 }
 
 type Explorer struct {
+	jsonStdNumbers bool // inside encoding/json.Unmarshal: integral numbers decode to float64
 	cfg *Config
 	S   *Solver
 	id  int
